@@ -38,7 +38,8 @@ ASSUMPTIONS = ['Python\'s own codecs are the ground truth for "decode with encod
                'bytes that neither the given encoding nor UTF-8 decodes; transcoding bytes the incoming codec '
                'rejects; the untouched-shortcut for alias spellings (utf8 vs utf-8: untouched or transcoded both '
                'accepted); empty bytes transcoded to a BOM-emitting codec (b\'\' or the bare BOM both accepted)']
-SHARDS = {'quick': 1, 'thorough': 16}
+INTERPRETER_FLAGS = [[], ['-O'], [], ['-bb']]
+SHARDS = {'quick': 4, 'thorough': 16}
 
 CANON = ['utf-8', 'utf-16', 'utf-32', 'latin-1', 'ascii', 'cp1252', 'shift_jis', 'euc_jp',
          'koi8-r', 'cp437', 'iso2022_jp', 'utf-7']
@@ -367,6 +368,11 @@ def eval_slug(ctx, case):
     again, exc = call(strutils.to_slug, got)
     if exc is not None or again != got:
         ctx.fail('slug-idempotent', case, {'value': value, 'once': got, 'twice': again, 'exc': exc})
+    if kwargs:
+        # "applying it twice": the same call, same keyword arguments, on its own result
+        again, exc = call(strutils.to_slug, got, **kwargs)
+        if exc is not None or again != got:
+            ctx.fail('slug-idempotent', case, {'value': value, 'once': got, 'twice': again, 'exc': exc, 'kwargs': kwargs})
     ctx.h('slug shape', ('empty' if not got else
                          ('lead-' if got[0] == '-' else '') + 'word' + ('-trail' if got[-1] == '-' else '')))
 
@@ -620,6 +626,12 @@ def run(ctx):
                               explicit_none=(len(data) + len(b)) % 2 == 1))
     ctx.exhaustive['stdin configurations x directed byte strings x policies'] = True
     # ---- slug directed
+    # byte strings that already are slugs, with explicit keyword arguments (a str and the equal-content bytes hash alike)
+    for word in ('abc', 'a-b', 'x', 'hello-world', 'a_b', '0', 'slug-1'):
+        for kw in ({'incoming': 'utf-8'}, {'incoming': 'ascii', 'errors': 'strict'}, {'errors': 'ignore'}):
+            for rep in range(4):     # once per shard residue: every interpreter-flag set sees every combination
+                emit(dict(kind='slug', value=word.encode('ascii'), cls='bytes-already-slug', **kw))
+            emit(dict(kind='slug', value=word, cls='str-already-slug', **kw))
     for value in SLUG_DIRECTED:
         emit(dict(kind='slug', value=value, cls='directed'))
         for inc in ('utf-8', 'UTF-16', 'utf-32'):
